@@ -851,3 +851,81 @@ func (c *Ctx) throughCell(x *X, at ssa.Instruction, env map[ssa.Value]*X) *X {
 	}
 	return x
 }
+
+// Slot is one argument of a call seen as a typed slot.
+type Slot struct {
+	Type string
+	Name string
+	X    *X
+}
+
+// SlotArgs lists the arguments of a call in declaration order; an argument
+// that is (a pointer to) a struct of this module built for the call — a
+// parameter object — is replaced by its fields, each with the value stored
+// into it (throughCell; the zero value when nothing is stored). Rules that
+// pick arguments by type and order thereby see f(a, b, c) and
+// f(&req{a: a, b: b, c: c}) alike.
+func (c *Ctx) SlotArgs(cs CallSite) []Slot { return c.SlotArgsEnv(cs, nil) }
+
+// SlotArgsEnv is SlotArgs for a call site found through helpers (CallsInl): env
+// carries the helpers' parameter bindings.
+func (c *Ctx) SlotArgsEnv(cs CallSite, env map[ssa.Value]*X) []Slot {
+	var out []Slot
+	callee := cs.In.Common().StaticCallee()
+	off := 0
+	if callee != nil && callee.Signature.Recv() != nil {
+		off = 1
+	}
+	for i, a := range cs.X.Args {
+		if i < off {
+			continue
+		}
+		name := ""
+		if callee != nil && i < len(callee.Params) {
+			name = callee.Params[i].Name()
+		}
+		var t types.Type
+		if a.V != nil {
+			t = a.V.Type()
+		} else if callee != nil && i < len(callee.Params) {
+			t = callee.Params[i].Type()
+		}
+		if t != nil {
+			if n, ok := types.Unalias(deref(t)).(*types.Named); ok && n.Obj().Pkg() != nil && !n.Obj().Exported() && strings.HasPrefix(n.Obj().Pkg().Path(), modPath) {
+				if st, ok := n.Underlying().(*types.Struct); ok {
+					for k := 0; k < st.NumFields(); k++ {
+						fname := canonField(st.Field(k))
+						fx := &X{Op: "field", Name: fname, Args: []*X{a}}
+						v := c.throughCell(fx, cs.In, env)
+						if v == fx {
+							v = &X{Op: "const", Name: "zero:" + st.Field(k).Type().String()}
+						}
+						out = append(out, Slot{Type: types.Unalias(st.Field(k).Type()).String(), Name: fname, X: v})
+					}
+					continue
+				}
+			}
+			out = append(out, Slot{Type: types.Unalias(t).String(), Name: name, X: a})
+			continue
+		}
+		out = append(out, Slot{Name: name, X: a})
+	}
+	return out
+}
+
+// slotOf picks the k-th slot (k < 0: from the end) whose type ends in typeSuffix.
+func slotOf(slots []Slot, typeSuffix string, k int) *X {
+	var m []*X
+	for _, s := range slots {
+		if strings.HasSuffix(s.Type, typeSuffix) {
+			m = append(m, s.X)
+		}
+	}
+	if k < 0 {
+		k += len(m)
+	}
+	if k < 0 || k >= len(m) {
+		return nil
+	}
+	return m[k]
+}
